@@ -840,6 +840,11 @@ class Interp:
                     "is %s)" % (norm(node), attr, v[1])), q
         if v == LAYER:
             return ('lmeth', attr), q
+        if v[0] == 'param' and attr == '__dict__':
+            # the live attribute dictionary of the test object handed to the callback
+            return ('tdict', v[1]), q
+        if v[0] == 'tdict' and attr in ('copy', 'clear', 'update'):
+            return ('dmeth', v[1], attr), q
         if v[0] == 'localcls':
             return OPAQUE, q
         if v[0] == 'none':
@@ -947,6 +952,7 @@ class Interp:
             return [(OPAQUE, q.event('fmt', fv[1], tuple(args), tags))]
         if k == 'lmeth':
             name = fv[1]
+            q0 = q
             order = q.env.get('__order', ('str', '?'))[1]
             if name == 'testSetUp':
                 bad = q.st.get('hooks') != 'down'
@@ -956,7 +962,11 @@ class Interp:
                 q = q.event('hook', name, order, 'unbalanced' if bad else 'ok').set('hooks', 'down')
             elif name in LAYER_HOOKS:
                 q = q.event('hook', name, order, 'foreign')
-            return [(OPAQUE, q)]
+            # a layer hook is user code: it may raise anything; the exception leaves the callback
+            # (unless the callback handles it) with the object state as it was before the call
+            return [(OPAQUE, q),
+                    (('!raise', 'LayerHookError', 'layer.%s() raised' % name),
+                     q0.event('hook-raises', name))]
         if k == 'ometh':
             obj, name = fv[1], fv[2]
             if name == 'getvalue':
@@ -974,6 +984,24 @@ class Interp:
             if name == 'seek':
                 return [(OPAQUE, q.event(name, obj[1]))]
             return [(OPAQUE, q)]
+        if k == 'dmeth':
+            # content of test.__dict__: 'S0' what it was when the test was handed over, 'dirty'
+            # after the test ran, 'empty' after clear(); a copy carries the content it was taken of
+            name, m = fv[1], fv[2]
+            key = 'tdict:' + name
+            cur = q.st.get(key, 'S0')
+            if m == 'copy':
+                return [(('dcopy', name, cur), q)]
+            if m == 'clear':
+                return [(NONE, q.set(key, 'empty').event('tdict', name, 'clear', 'empty'))]
+            a = args[0] if args else OPAQUE
+            if a == ('tdict', name):
+                new = cur                      # d.update(d): nothing changes
+            elif a[0] == 'dcopy' and a[1] == name and cur in ('empty', a[2]):
+                new = a[2]
+            else:
+                new = 'unknown'
+            return [(NONE, q.set(key, new).event('tdict', name, 'update', new))]
         if k == 'localcls':
             return [(('obj', 'new', fv[2], fv[1]), q)]
         # ---- by canonical name
